@@ -132,11 +132,17 @@ def work(item):
                             check_one(v, expr, {'width': w, 'ribbon_width': w, 'indent': 4, 'sort_dict_keys': srt}, part, cache)
         elif kind == 'flat':
             # long flat containers around the printers' "too long to ever fit" shortcut (3n > 150)
-            for n in (49, 50, 51, 52, 150):
+            for n in (49, 50, 51, 52, 150, 151, 200):
                 for mk, name in ((lambda n: list(range(n)), 'list(range(%d))'), (lambda n: tuple(range(n)), 'tuple(range(%d))'),
                                  (lambda n: set(range(n)), 'set(range(%d))'), (lambda n: {i: i for i in range(n)}, '{i: i for i in range(%d)}'),
                                  (lambda n: frozenset(range(n)), 'frozenset(range(%d))'), (lambda n: [[]] * n, '[[]] * %d'),
-                                 (lambda n: ['', -0.0] * (n // 2), "['', -0.0] * (%d // 2)")):
+                                 (lambda n: ['', -0.0] * (n // 2), "['', -0.0] * (%d // 2)"),
+                                 # equal values of different types / signs side by side in a long sequence
+                                 (lambda n: [1] * n + [True, 1.0, 0, False, 0.0, -0.0], '[1] * %d + [True, 1.0, 0, False, 0.0, -0.0]'),
+                                 (lambda n: [0.0] * n + [-0.0, 0, False], '[0.0] * %d + [-0.0, 0, False]'),
+                                 (lambda n: tuple([(1, 2)] * n + [(True, 2.0), (1.0, 2)]), 'tuple([(1, 2)] * %d + [(True, 2.0), (1.0, 2)])'),
+                                 (lambda n: ['a', b'a', 1, True, 1.0, (1,), (True,), 0, False, -0.0, 0.0, None] * (n // 6),
+                                  "['a', b'a', 1, True, 1.0, (1,), (True,), 0, False, -0.0, 0.0, None] * (%d // 6)")):
                     v = mk(n)
                     cache = {}
                     part.c['family_values'] += 1
